@@ -254,24 +254,87 @@ def check(ctx: Ctx) -> None:
         ctx.violation("R20.3", "to_circuitikz:framing", TIKZ, tz.node, "the source must start with \\begin{circuitikz} and end with \\end{circuitikz} on every path")
     dp = model.fi(SCHEM, "to_drawing.draw_parallel")
     ctx.instance("R20.3", "draw_parallel: push and pop in equal number")
-    pushes = [c for c in calls_in(dp.node) if dotted(c.func) == "drawing.push"]
-    pops = [c for c in calls_in(dp.node) if dotted(c.func) == "drawing.pop"]
-    ok = len(pushes) == 1 and len(pops) == 1
-    if ok:
-        pi, qi = enclosing(pushes[0], ast.If), enclosing(pops[0], ast.If)
-        pl, ql = enclosing(pushes[0], ast.For), enclosing(pops[0], ast.For)
-        ok = pi is not None and qi is not None and pl is not None and ql is not None and pl is not ql
+    ok = None
+    try:
+        # interpreted (AST, sa.miniinterp) for 1..6 element branches with a drawing stub that counts: the saved-position stack
+        # never underflows and is empty at the end, every branch is drawn once
+        from ..miniinterp import InterpRaise, Mini
+
+        class _KE:  # kinds
+            pass
+
+        class _KS:
+            pass
+
+        class _KP:
+            def __init__(self, kids):
+                self.kids = kids
+
+            def __iter__(self):
+                return iter(self.kids)
+
+        class _Line:
+            def __init__(self, **k):
+                pass
+
+            def down(self, *a, **k): return self
+            def up(self, *a, **k): return self
+            def right(self, *a, **k): return self
+            def left(self, *a, **k): return self
+
+        class _Elm:
+            Line = _Line
+
+        class _Drawing:
+            def __init__(self):
+                self.depth, self.min_depth, self.pushes, self.pops = 0, 0, 0, 0
+
+            def push(self):
+                self.depth += 1; self.pushes += 1
+
+            def pop(self):
+                self.depth -= 1; self.pops += 1; self.min_depth = min(self.min_depth, self.depth)
+
+            def add(self, *a, **k):
+                return None
+        ok = True
+        for n_ in range(1, 7):
+            drawn = []
+            dr = _Drawing()
+            env_stubs = {"Element": _KE, "Series": _KS, "Parallel": _KP, "elm": _Elm, "get_height": lambda x: 1.0, "get_width": lambda x: 2.0,
+                         "draw_element": lambda e_, d_: drawn.append(e_), "draw_series": lambda e_, d_, *a, **k: drawn.append(e_)}
+            mi = Mini(env_stubs)
+            env_stubs["draw_parallel"] = lambda p_, d_: mi.call_function(dp.node, {"parallel": p_, "drawing": d_})
+            try:
+                mi.call_function(dp.node, {"parallel": _KP([_KE() for _ in range(n_)]), "drawing": dr})
+            except InterpRaise:
+                ok = False
+                break
+            if not (dr.depth == 0 and dr.min_depth >= 0 and dr.pushes == dr.pops == n_ - 1 and len(drawn) == n_):
+                ok = False
+                break
+    except AnalysisError as e:
+        ctx.note(f"draw_parallel not interpretable ({e}); falling back to the shape rule")
+        ok = None
+    if ok is None:
+        pushes = [c for c in calls_in(dp.node) if dotted(c.func) == "drawing.push"]
+        pops = [c for c in calls_in(dp.node) if dotted(c.func) == "drawing.pop"]
+        ok = len(pushes) == 1 and len(pops) == 1
         if ok:
-            def count(test: ast.AST, n: int) -> Optional[int]:
-                src = norm(test).replace("len(elements_connections)", "n").replace("len(heights)", "n")
-                if not set(src) <= set("in<>=!-+ 0123456789()"):
-                    return None
-                return sum(1 for i in range(n) if eval(src, {"__builtins__": {}}, {"i": i, "n": n}))
-            same_len = "enumerate(heights)" in norm(pl.iter) and "enumerate(elements_connections)" in norm(ql.iter) and \
-                any(isinstance(n, (ast.Assign, ast.AnnAssign)) and norm(n.targets[0] if isinstance(n, ast.Assign) else n.target) == "heights"
-                    and "map(get_height, elements_connections)" in norm(n.value) for n in walk_ordered(dp.node))
-            cs_ = [(count(pi.test, n), count(qi.test, n)) for n in range(1, 9)]
-            ok = same_len and all(a is not None and a == b for a, b in cs_)
+            pi, qi = enclosing(pushes[0], ast.If), enclosing(pops[0], ast.If)
+            pl, ql = enclosing(pushes[0], ast.For), enclosing(pops[0], ast.For)
+            ok = pi is not None and qi is not None and pl is not None and ql is not None and pl is not ql
+            if ok:
+                def count(test: ast.AST, n: int) -> Optional[int]:
+                    src = norm(test).replace("len(elements_connections)", "n").replace("len(heights)", "n")
+                    if not set(src) <= set("in<>=!-+ 0123456789()"):
+                        return None
+                    return sum(1 for i in range(n) if eval(src, {"__builtins__": {}}, {"i": i, "n": n}))
+                same_len = "enumerate(heights)" in norm(pl.iter) and "enumerate(elements_connections)" in norm(ql.iter) and \
+                    any(isinstance(n, (ast.Assign, ast.AnnAssign)) and norm(n.targets[0] if isinstance(n, ast.Assign) else n.target) == "heights"
+                        and "map(get_height, elements_connections)" in norm(n.value) for n in walk_ordered(dp.node))
+                cs_ = [(count(pi.test, n), count(qi.test, n)) for n in range(1, 9)]
+                ok = same_len and all(a is not None and a == b for a, b in cs_)
     if ok:
         ctx.ok()
     else:
